@@ -531,7 +531,7 @@ def establish(mir, ctx, res):
         if entry:
             stage = check_pass(mir, V, entry[0], errs[0], tmp)
             check_kind(mir, stage, errs[0], tmp)
-            bad = [v for v in tmp.violations if v.rule in ("R-C10-kind", "R-C10-pass")]
+            bad = [v for v in tmp.violations if v.rule in ("R-C10-kind", "R-C10-pass") or (v.rule == "floor" and ("reference-check" in v.key or "validator" in v.key))]
             kind_ok = not bad
             why = "R-C10-kind and R-C10-pass hold" if kind_ok else "C10 fails: %s" % bad[0].msg[:160]
     cx.ntref_ok = (kind_ok, why if errs else "no KikiErr")
